@@ -141,6 +141,34 @@ def NI1_sign_independence(rep, flow, root_fq="stabilizer_circuits.get_readout_ci
     if roots is not None and not roots:
         raise AnalysisError("cannot identify the function that computes the class id (no call feeds the accessor's class-id argument)")
     clo = prog.closure(list(roots) if roots is not None else [root], may=True, extra_edges=implicit_edges(prog, stab))
+    if roots is None:
+        # the glue modules are interpreted path by path: a module-level function that a glue function names but that no
+        # interpreted path of the root ever calls (a branch switched off by a constant flag: `repair_signs=False`) is not
+        # part of the readout's computation.  Only edges glue -> plain function are filtered; everything below a function
+        # that IS called keeps the MAY over-approximation.
+        from .abscalls import GLUE_MODULES
+        called = set()
+        for r in flow.paths(root_fq):
+            for ev in r.events:
+                if ev[0] == "call":
+                    called.add(ev[1])
+        ie = implicit_edges(prog, stab)
+        seen, todo = set(), [root]
+        while todo:
+            g = todo.pop()
+            if g in seen:
+                continue
+            seen.add(g)
+            nxt = set(prog.callees(g, True)) | set(ie(g))
+            for h in nxt:
+                if g.module.name in GLUE_MODULES and h.cls is None and not getattr(h, "nested", False) and h.fq not in called:
+                    continue
+                if h not in seen:
+                    todo.append(h)
+        dropped = sorted(x.fq for x in clo - seen)
+        if dropped:
+            rep.analysed["NI1 functions named by glue code but never called on an interpreted path of the root (left out)"] = dropped[:20]
+        clo = clo & seen
     rep.analysed["NI1 sign field(s)"] = sorted(fields)
     rep.analysed["NI1 closure size (functions, MAY graph)"] = len(clo)
     for f in sorted(clo, key=lambda g: g.fq):
